@@ -153,7 +153,9 @@ struct Raster : Profile {
                                                        r.chance(0.6) ? 1 : r.range(1, 3), (int64_t)r.below(1000), (int64_t)r.below(1000),
                                                        k == 1 ? (int64_t)(r.next() >> 16) : (int64_t)r.below(3), (int64_t)r.below(2)}));
                     break;
-                case 3:
+                case 3: // second argument 1: first ask for a chunked layout the image cannot get any more (refused; nothing may change)
+                    p.ops.push_back(mkop(0, names[k], {d, r.chance(0.4) ? 1 : 0}));
+                    break;
                 case 4:
                     p.ops.push_back(mkop(0, names[k], {d}));
                     break;
@@ -599,8 +601,21 @@ struct Raster : Profile {
             else if (k == "info") {
                 if (!m.exists)
                     done = false;
-                else
+                else {
+                    if (o.arg(1) == 1 && (m.comp != 0 || m.chunked) && m.any_write && !(m.chunk_written && p.knob("unguard_chunk_mixed", 0) == 0)) {
+                        // the image is compressed or chunked already and holds data: it cannot be given (another) chunked layout.
+                        // Whatever the call answers, the id goes on working and the pixels stay (read right here and by all that follows)
+                        HDF_CHUNK_DEF cd;
+                        memset(&cd, 0, sizeof cd);
+                        cd.chunk_lengths[0] = cd.chunk_lengths[1] = 1;
+                        intn rc = GRsetchunk(sel(s, di), cd, HDF_CHUNK);
+                        ctx.tr((uint64_t)(int64_t)rc);
+                        ctx.probe(rc == FAIL ? "late-chunking-refused" : "late-chunking-accepted");
+                        m.slab_touched = true;
+                        read_region(s, di, 0, 0, 1, 1, m.w, m.h, MFGR_INTERLACE_PIXEL, "whole image after a refused layout call");
+                    }
                     check_info(s, di, "in session");
+                }
             }
             else if (k == "endaccess") {
                 if (!m.exists || m.ri == FAIL)
